@@ -207,6 +207,8 @@ class Ctx:
                 self.transitions += res['generated']
                 for v in o.get('fails', []):
                     verdicts[v['tid']] = v
+                if o.get('uncert'):
+                    self.extra.setdefault('lasso_uncertified_tids', []).extend(o['uncert'])
         shutil.rmtree(d, ignore_errors=True)
         self.traces += len(events)
         self.count('tlc_validation_wall_s', round(time.time() - t, 1))
